@@ -631,6 +631,7 @@ type c19H struct {
 		m  map[uint64]struct{}
 	}
 	infoMu  sync.Mutex
+	violKeys map[string]int64
 	info    map[string][]any
 }
 
@@ -641,6 +642,12 @@ type c19Running struct {
 
 func (h *c19H) viol(key, what string, art c19Art) {
 	h.nviol.Add(1)
+	h.infoMu.Lock()
+	if h.violKeys == nil {
+		h.violKeys = map[string]int64{}
+	}
+	h.violKeys[key]++
+	h.infoMu.Unlock()
 	if h.replay {
 		b, _ := json.Marshal(art)
 		fmt.Printf("REPLAY: violation key=%s: %s\n  %s\n", key, what, b)
@@ -2304,6 +2311,9 @@ func TestVerifC19(t *testing.T) {
 	for k, v := range h.info {
 		r.Set("note_"+k, v)
 	}
+	if len(h.violKeys) > 0 {
+		r.Set("violations_by_key", h.violKeys)
+	}
 	depth := 2
 	if thorough {
 		depth = 3
@@ -2507,6 +2517,17 @@ func (hs *c19Hist) run(setup string, d Decompressor, seq []*c19Op) bool {
 		return a
 	}
 	kept := make([]c19Kept, 0, len(seq))
+	// Memory-ownership findings (c, d) are held back to the end of the sequence
+	// so that the behavioural finding (a: a kept value really changes under a
+	// later operation) is observed and reported too when it happens.
+	var ptr func()
+	flush := func() bool {
+		if ptr != nil {
+			ptr()
+			return false
+		}
+		return true
+	}
 	for step, op := range seq {
 		hs.ops++
 		in := bytes.Clone(op.in) // every operation instance owns its input
@@ -2550,6 +2571,7 @@ func (hs *c19Hist) run(setup string, d Decompressor, seq []*c19Op) bool {
 			ki := &kept[i]
 			if !bytes.Equal(ki.res, ki.snap) {
 				h.viol("history-result-overwritten:"+seq[i].Kind+":"+seq[i].Form, fmt.Sprintf("[%s] the result of operation %d (%s %s, %d bytes) changed after operation %d (%s %s): an earlier result was overwritten by a later call", setup, i, seq[i].Kind, seq[i].Form, len(ki.snap), step, op.Kind, op.Form), art(step, i))
+				flush()
 				return false
 			}
 			if !bytes.Equal(ki.in, seq[i].in) {
@@ -2561,9 +2583,11 @@ func (hs *c19Hist) run(setup string, d Decompressor, seq []*c19Op) bool {
 			}
 			if i == len(kept)-1 {
 				for j := 0; j < i; j++ {
-					if !kept[j].copied && c19Overlap(ki.res, kept[j].res) {
-						h.viol("history-results-share-memory:"+seq[i].Kind+":"+seq[i].Form, fmt.Sprintf("[%s] the results of operations %d (%s %s) and %d (%s %s) overlap in memory", setup, j, seq[j].Kind, seq[j].Form, i, seq[i].Kind, seq[i].Form), art(step, j))
-						return false
+					if !kept[j].copied && ptr == nil && c19Overlap(ki.res, kept[j].res) {
+						j, i, step := j, i, step
+						ptr = func() {
+							h.viol("history-results-share-memory:"+seq[i].Kind+":"+seq[i].Form, fmt.Sprintf("[%s] the results of operations %d (%s %s) and %d (%s %s) overlap in memory", setup, j, seq[j].Kind, seq[j].Form, i, seq[i].Kind, seq[i].Form), art(step, j))
+						}
 					}
 				}
 			}
@@ -2572,14 +2596,16 @@ func (hs *c19Hist) run(setup string, d Decompressor, seq []*c19Op) bool {
 			}
 			for _, b := range hs.registry {
 				bb := b.Bytes()
-				if c19Overlap(ki.res, bb[:cap(bb)]) {
-					h.viol("history-result-in-internal-pool:"+seq[i].Kind+":"+seq[i].Form, fmt.Sprintf("[%s] the result of operation %d (%s %s, %d bytes) lies inside a buffer of the client's internal byteBuffers pool (seen after operation %d): the next user of the pool overwrites it", setup, i, seq[i].Kind, seq[i].Form, len(ki.res), step), art(step, i))
-					return false
+				if ptr == nil && c19Overlap(ki.res, bb[:cap(bb)]) {
+					i, step, n := i, step, len(ki.res)
+					ptr = func() {
+						h.viol("history-result-in-internal-pool:"+seq[i].Kind+":"+seq[i].Form, fmt.Sprintf("[%s] the result of operation %d (%s %s, %d bytes) lies inside a buffer of the client's internal byteBuffers pool (seen after operation %d): the next user of the pool overwrites it", setup, i, seq[i].Kind, seq[i].Form, n, step), art(step, i))
+					}
 				}
 			}
 		}
 	}
-	return true
+	return flush()
 }
 
 // phaseHistory must run before anything else has populated byteBuffers.
